@@ -46,13 +46,14 @@ pub struct GameServerPort {
 
 #[derive(Deserialize, Serialize, Clone, Debug, Default, JsonSchema)]
 pub struct GameServerCounter {
-    count: Option<u32>,
-    capacity: Option<u32>,
+    // counters and capacities are 64-bit in the Agones API
+    count: Option<i64>,
+    capacity: Option<i64>,
 }
 
 #[derive(Deserialize, Serialize, Clone, Debug, Default, JsonSchema)]
 pub struct GameServerList {
-    capacity: Option<u32>,
+    capacity: Option<i64>,
     #[serde(default)]
     values: Vec<String>,
 }
